@@ -9,6 +9,7 @@ Local Open Scope N_scope.
 Definition max_height : N := 48.                  (* shachain.maxHeight *)
 Definition start_index : N := 2 ^ 48 - 1.        (* (1 << maxHeight) - 1 *)
 Definition u64_max : N := 18446744073709551615.
+Definition two64 : N := 18446744073709551616.
 
 (* utils.go: getBit — uint8((uint64(index) >> position) & 1) *)
 Definition get_bit (idx pos : N) : N := N.land (N.shiftr idx pos) 1.
@@ -121,7 +122,10 @@ Section WithHash.
       end
     end.
 
-  Definition new_index (v : N) : N := start_index - v.
+  (* element.go newIndex: startIndex - index(v) on uint64, i.e. it wraps for
+     v > startIndex (such an index then derives from nothing) *)
+  Definition new_index (v : N) : N :=
+    (start_index + two64 - v mod two64) mod two64.
 
   Definition lookup (st : store) (v : N) : option hash :=
     lookup_from (N.to_nat (len_buckets st)) 0 st (new_index v).
